@@ -14,13 +14,14 @@ type hSyncFile struct {
 	written, synced int64
 	ops, failAt     int
 	failed          bool
+	transient       bool // only operation number failAt fails; otherwise it and every later one
 }
 
 var errInjected = errors.New("verif: injected I/O error")
 
 func (f *hSyncFile) op() error {
 	f.ops++
-	if f.failAt != 0 && f.ops >= f.failAt {
+	if f.failAt != 0 && (f.ops == f.failAt || (!f.transient && f.ops > f.failAt)) {
 		f.failed = true
 		return errInjected
 	}
@@ -62,8 +63,13 @@ type hSyncWaiter struct {
 // waiter is released without an error, the file has been synced at least up
 // to the end of its record (hence of all earlier ones); after an I/O error no
 // later waiter is released without an error; nobody is left waiting after Close.
-func hSyncAck(nRecords int, withFailure bool) {
-	file := &hSyncFile{}
+func hSyncAck(nRecords int, withFailure bool) { hSyncAckX(nRecords, withFailure, false, false) }
+
+// With transient only one file operation fails (the device recovers); with bigLast the last
+// record is one block long, so it spans two blocks and a flush can carry a full block and a
+// tail at once.
+func hSyncAckX(nRecords int, withFailure, transient, bigLast bool) {
+	file := &hSyncFile{transient: transient}
 	if withFailure {
 		file.failAt = sym.Choose("fail-at-op", 2*nRecords+3)
 	}
@@ -77,7 +83,12 @@ func hSyncAck(nRecords int, withFailure bool) {
 	for i := 0; i < nRecords; i++ {
 		wt := &hSyncWaiter{}
 		waiters[i] = wt
-		payload := sym.BytesN("payload", 1+sym.Choose("len", 2))
+		var payload []byte
+		if bigLast && i == nRecords-1 {
+			payload = make([]byte, blockSize)
+		} else {
+			payload = sym.BytesN("payload", 1+sym.Choose("len", 2))
+		}
 		sem <- struct{}{} // as commitPipeline.Commit does before a synced write
 		wt.wg.Add(1)
 		sym.Atomic(func() { wt.queued = file.ops })
@@ -125,4 +136,10 @@ func VerifHarness_C20_Conc_SyncAckFailure() { hSyncAck(2, true) }
 func VerifHarness_C20_Conc_SyncAck3_Thorough() {
 	sym.MaxPreempt(2)
 	hSyncAck(3, true)
+}
+
+// a transient write error on a full block while a tail follows in the same flush
+func VerifHarness_C20_Conc_TransientErrorBlockAndTail() {
+	sym.MaxPreempt(1)
+	hSyncAckX(2, true, true, true)
 }
